@@ -34,7 +34,6 @@ EXPECTED_NOT_UNDERSTOOD = {
     "seeded/C09-E/patch.diff": "critical events derived from the attribution map of the critical edges: the abstract run does not reduce the set comprehension over the edge set to concrete events",
     "seeded/C09-V/patch.diff": "nx.dag_longest_path replaced by a hand-rolled relaxation over a (ts, is_start, id) order: whether a hand-made order is topological for every graph is not decidable from the shape (same family as C09-T)",
     "seeded/C12-U/patch.diff": "step lookup vectorised with np.searchsorted over unsorted step starts: searchsorted is not interpreted (same family as C12-C)",
-    "seeded/C12-V/patch.diff": "the last step resolved once from the job-wide symbol table instead of per rank: the trim rule is evaluated for one rank and does not see which table the step name came from",
     "seeded/C16-L/patch.diff": "the per-pattern duration lists replaced by another accumulator: the rule looks for the two list stores and finds neither (look-for rule: not understood)",
     "seeded/C17-V/patch.diff": "summaries memoised per (rank, iteration, device) and renamed in place by a later call: the rule evaluates one call and does not model the cache across calls",
     "seeded/C12-C/patch.diff": "step lookup rewritten with np.searchsorted over unsorted annotations: the evaluator has no model of searchsorted",
